@@ -19,7 +19,7 @@ ID = "C20"
 LEVEL = "exploration"
 TIERS = {
     "quick": {"shards": 128, "examples": 200, "det_shards": 2},
-    "thorough": {"shards": 1024, "examples": 800, "det_shards": 8},
+    "thorough": {"shards": 2048, "examples": 800, "det_shards": 8},
 }
 RULE = ("case = history of <= 30 operations on the public RSTWriter API (text with 1-4 lines and own leading spaces, field, "
         "bulleted/enumerated list, directive nested to depth <= 4, option, top-level section, set_title, clear, serialise via "
